@@ -154,24 +154,31 @@ class reusable_storage_mtsafe: public reusable_storage {
 public:
     void *alloc(std::size_t sz)  {
         void *p;
+        reusable_storage_mtsafe *owner;
         COCLS_VERIF_POINT(rs_alloc_entry);
-        if (_busy.exchange(true, std::memory_order_relaxed)) {
+        //acquire - the block is handed over from the thread, which released it
+        if (_busy.exchange(true, std::memory_order_acquire)) {
             p = ::operator new(sz+sizeof(reusable_storage_mtsafe **));
+            //frame allocated on heap has no owner
+            owner = nullptr;
         } else {
             p = reusable_storage::alloc(sz+sizeof(reusable_storage_mtsafe **));
+            owner = this;
         }
         COCLS_VERIF_POINT(rs_alloc_flagged);
         auto s = reinterpret_cast<reusable_storage_mtsafe **>(reinterpret_cast<char *>(p) + sz);
-        *s = this;
+        *s = owner;
         return p;
     }
     static void dealloc(void *ptr, std::size_t sz) {
         auto s = reinterpret_cast<reusable_storage_mtsafe **>(reinterpret_cast<char *>(ptr) + sz);
         auto me = *s;
         COCLS_VERIF_POINT(rs_dealloc_entry);
-        if (ptr == me->_ptr) {
+        //don't touch _ptr here, other thread can be reallocating the block right now
+        if (me) {
             COCLS_VERIF_POINT(rs_dealloc_pre_store);
-            me->_busy.store(false, std::memory_order_relaxed);
+            //release - the block can be reused by other thread
+            me->_busy.store(false, std::memory_order_release);
         } else {
             ::operator delete(ptr);
         }
